@@ -2673,7 +2673,9 @@ def record_iteration(requester, prob, case_name):
     if opts['record_inputs'] and (inputs._names or len(discrete_inputs) > 0):
         data['input'] = model._retrieve_data_of_kind(filt, 'input', 'nonlinear', local)
 
-    if opts['record_outputs'] and (outputs._names or len(discrete_outputs) > 0):
+    # the 'output' filter already honors record_outputs and also holds the design variables,
+    # responses and input sources selected by their own options.
+    if outputs._names or len(discrete_outputs) > 0:
         data['output'] = model._retrieve_data_of_kind(filt, 'output', 'nonlinear', local)
 
     if opts['record_residuals'] and residuals._names:
